@@ -186,28 +186,52 @@ func HarnessC04Write() {
 	c03CheckHashes(sdb2, "points and hashes are never out of step after a restart")
 }
 
-// HarnessC04Init: the process dies during first-time initialisation.
+// HarnessC04Init: the process dies during first-time initialisation, with a
+// configured root id or (the server's default) a generated one.
 func HarnessC04Init() {
+	rid := []string{"root0", ""}[vChoose(2)]
 	k := vChoose(vParam("istmts", 45)+1) - 1
 	file := vTempFile()
 	died := vCrashRun(k, func() {
 		vCrashArm()
-		_, _ = NewSqliteDb(file, "root0")
+		_, _ = NewSqliteDb(file, rid)
 	})
-	sdb, err := NewSqliteDb(file, "root0")
+	sdb, err := NewSqliteDb(file, rid)
 	vAssert(err == nil, "initialisation can be completed after a crash at any point of first-time initialisation")
-	vAssert(sdb.meta.RootID == "root0" && len(sdb.meta.JWTKey) == 20, "root id and signing key are set after recovery")
+	root := sdb.meta.RootID
+	vAssert(root != "" && (rid == "" || root == rid) && len(sdb.meta.JWTKey) == 20, "root id and signing key are set after recovery")
 	sdb3, err := NewSqliteDb(file, "another")
-	vAssert(err == nil && sdb3.meta.RootID == "root0" && vBytesEq(sdb3.meta.JWTKey, sdb.meta.JWTKey), "a further restart keeps root id and signing key")
-	roots, err := sdb.getNodes(nil, "root", "all", "", false)
-	vAssert(err == nil && len(roots) == 1 && roots[0].ID == "root0", "the root node is readable")
-	users, err := sdb.userCheck("admin@admin.com", "admin")
+	vAssert(err == nil && sdb3.meta.RootID == root && vBytesEq(sdb3.meta.JWTKey, sdb.meta.JWTKey), "a further restart keeps root id and signing key")
+	roots, err := sdb3.getNodes(nil, "root", "all", "", false)
+	vAssert(err == nil && len(roots) == 1 && roots[0].ID == root, "the root node is readable")
+	// one instance root, nothing left over from the run that died
+	es := vDumpEdges(sdb3)
+	nRoot := 0
+	for _, e := range es {
+		if e.Up == "root" {
+			nRoot++
+			vAssert(e.Down == root, "the only root placement is the instance root")
+		} else {
+			attached := false
+			for _, f := range es {
+				if f.Down == e.Up {
+					attached = true
+				}
+			}
+			vAssert(attached, "no placement is left dangling by the run that died")
+		}
+	}
+	vAssert(nRoot == 1, "there is exactly one instance root after recovery")
+	users, err := sdb3.userCheck("admin@admin.com", "admin")
 	vAssert(err == nil, "the user table is readable")
 	_ = users
-	c03CheckHashes(sdb, "hashes are consistent after recovery from a crash during initialisation")
+	c03CheckHashes(sdb3, "hashes are consistent after recovery from a crash during initialisation")
 	if died {
 		vCover("c04 init: died")
 	} else {
 		vCover("c04 init: completed")
+	}
+	if rid == "" {
+		vCover("c04 init: generated root id")
 	}
 }
